@@ -874,8 +874,8 @@ func (a *Agent) TaskPrepare(Command int, Info any, Message *map[string]string, C
 					return job, err
 				}
 
-				if _, ok := Optional["Argument"]; ok {
-					args, err := base64.StdEncoding.DecodeString(Optional["Argument"].(string))
+				if val, ok := Optional["Arguments"].(string); ok {
+					args, err := base64.StdEncoding.DecodeString(val)
 					if err != nil {
 						return job, err
 					}
@@ -930,8 +930,8 @@ func (a *Agent) TaskPrepare(Command int, Info any, Message *map[string]string, C
 					return job, err
 				}
 
-				if _, ok := Optional["Argument"]; ok {
-					args, err := base64.StdEncoding.DecodeString(Optional["Argument"].(string))
+				if val, ok := Optional["Arguments"].(string); ok {
+					args, err := base64.StdEncoding.DecodeString(val)
 					if err != nil {
 						return job, err
 					}
@@ -980,8 +980,8 @@ func (a *Agent) TaskPrepare(Command int, Info any, Message *map[string]string, C
 					return job, err
 				}
 
-				if _, ok := Optional["Argument"]; ok {
-					args, err := base64.StdEncoding.DecodeString(Optional["Argument"].(string))
+				if val, ok := Optional["Arguments"].(string); ok {
+					args, err := base64.StdEncoding.DecodeString(val)
 					if err != nil {
 						return job, err
 					}
